@@ -148,22 +148,23 @@ type edit struct {
 }
 
 type state struct {
-	dir     string
-	env     []string
-	ref     map[string]bool
-	overlay map[string][]byte
-	counter int
-	res     *Result
-	bad     map[string]string // fresh function key -> reason it is left alone
-	inlined map[string]int    // key -> number of call sites inlined so far
-	dropped map[string]bool
-	keyOf   map[*types.Func]string // fresh functions of the current round
+	dir       string
+	env       []string
+	ref       map[string]bool
+	overlay   map[string][]byte
+	counter   int
+	res       *Result
+	bad       map[string]string // fresh function key -> reason it is left alone
+	inlined   map[string]int    // key -> number of call sites inlined so far
+	dropped   map[string]bool
+	keyOf     map[*types.Func]string // fresh functions of the current round
+	needFrame map[string]bool        // fresh functions that use defer / recover
 }
 
 // Run computes the overlay. A nil overlay means nothing had to be normalised.
 func Run(dir string, env []string) (*Result, error) {
 	st := &state{dir: dir, env: env, ref: reference(), overlay: map[string][]byte{}, res: &Result{},
-		bad: map[string]string{}, inlined: map[string]int{}, dropped: map[string]bool{}}
+		bad: map[string]string{}, inlined: map[string]int{}, dropped: map[string]bool{}, needFrame: map[string]bool{}}
 	keys, byPkg, err := Inventory(dir, env)
 	if err != nil {
 		return nil, err
@@ -281,7 +282,9 @@ func (st *state) round(pats []string) (bool, error) {
 				st.keyOf[obj] = k
 				order = append(order, x)
 				if _, isBad := st.bad[k]; !isBad {
-					if why := eligible(pk, fd, obj); why != "" {
+					if why := eligible(pk, fd, obj); why == ownFrame {
+						st.needFrame[k] = true
+					} else if why != "" {
 						st.bad[k] = why
 					}
 				}
@@ -498,6 +501,10 @@ func lineDirective(fset *token.FileSet, pos token.Pos, _ []byte, _ int) string {
 	return fmt.Sprintf("/*line %s:%d:%d*/", p.Filename, p.Line, p.Column)
 }
 
+// ownFrame: the helper uses defer or recover. Its body needs a function frame of its own, so it can only be
+// turned into a function literal where it is started with go or defer.
+const ownFrame = "uses defer or recover and is called directly"
+
 // eligible says why a fresh function cannot be inlined ("" when it can).
 func eligible(pk *packages.Package, fd *ast.FuncDecl, obj *types.Func) string {
 	if fd.Body == nil {
@@ -518,7 +525,7 @@ func eligible(pk *packages.Package, fd *ast.FuncDecl, obj *types.Func) string {
 		switch x := n.(type) {
 		case *ast.DeferStmt:
 			if !insideFuncLit(fd.Body, x) {
-				why = "uses defer"
+				why = ownFrame
 			}
 		case *ast.BranchStmt:
 			if x.Tok == token.GOTO {
@@ -526,8 +533,8 @@ func eligible(pk *packages.Package, fd *ast.FuncDecl, obj *types.Func) string {
 			}
 		case *ast.CallExpr:
 			if id, ok := x.Fun.(*ast.Ident); ok && id.Name == "recover" {
-				if _, isB := pk.TypesInfo.Uses[id].(*types.Builtin); isB {
-					why = "uses recover"
+				if _, isB := pk.TypesInfo.Uses[id].(*types.Builtin); isB && !insideFuncLit(fd.Body, x) {
+					why = ownFrame
 				}
 			}
 		case *ast.Ident:
@@ -738,6 +745,7 @@ func (st *state) plan(pk *packages.Package, x *fresh, id *ast.Ident, src func(*t
 	}
 	// header-only path with nothing ordered before the call
 	where := fset.Position(call.Pos())
+	asLiteral := false // "go h(..)" / "defer h(..)": the helper becomes a function literal in place
 	for i := si; i < ci; i++ {
 		a, c := path[i], path[i+1]
 		switch p := a.(type) {
@@ -783,11 +791,11 @@ func (st *state) plan(pk *packages.Package, x *fresh, id *ast.Ident, src func(*t
 			}
 		case *ast.GoStmt:
 			if p.Call == call {
-				return nil, nil, fmt.Errorf("started with go at %s", where)
+				asLiteral = true
 			}
 		case *ast.DeferStmt:
 			if p.Call == call {
-				return nil, nil, fmt.Errorf("deferred at %s", where)
+				asLiteral = true
 			}
 		case *ast.LabeledStmt:
 			if i != si {
@@ -833,6 +841,11 @@ func (st *state) plan(pk *packages.Package, x *fresh, id *ast.Ident, src func(*t
 		}
 		return true
 	})
+	if asLiteral {
+		ordered = ""
+	} else if st.needFrame[x.key] {
+		return nil, nil, fmt.Errorf("%s at %s", ownFrame, where)
+	}
 	if ordered == "later" {
 		return nil, stmt, errLater
 	}
@@ -854,7 +867,7 @@ func (st *state) plan(pk *packages.Package, x *fresh, id *ast.Ident, src func(*t
 	if es, ok := parent.(*ast.ExprStmt); ok && unparen(es.X) == ast.Expr(call) {
 		isStmtCall = true
 	}
-	if !isStmtCall {
+	if !isStmtCall && !asLiteral {
 		switch {
 		case nres == 0:
 			return nil, nil, fmt.Errorf("call without result used as a value at %s", where)
@@ -987,9 +1000,10 @@ func (st *state) plan(pk *packages.Package, x *fresh, id *ast.Ident, src func(*t
 		case !rp && xp:
 			arg = "*(" + arg + ")"
 		}
-		fmt.Fprintf(&pre, "var %srecv %s = %s; ", pfx, typeStr(rt), arg)
+		// the receiver operand has the receiver's type (after & / *): no type needs to be spelled
+		fmt.Fprintf(&pre, "%srecv := %s; ", pfx, arg)
 		if rn := recvName(x.decl); rn != "" {
-			fmt.Fprintf(&bind, "var %s %s = %srecv; _ = %s; ", rn, typeStr(rt), pfx, rn)
+			fmt.Fprintf(&bind, "%s := %srecv; _ = %s; ", rn, pfx, rn)
 		} else {
 			fmt.Fprintf(&pre, "_ = %srecv; ", pfx)
 		}
@@ -1006,10 +1020,15 @@ func (st *state) plan(pk *packages.Package, x *fresh, id *ast.Ident, src func(*t
 				return nil, nil, fmt.Errorf("argument count mismatch at %s", where)
 			}
 			pt := sig.Params().At(pi).Type()
-			ts := typeStr(pt)
-			fmt.Fprintf(&pre, "var %sa%d %s = %s; ", pfx, pi, ts, text(call.Args[pi]))
+			// spell the parameter type only when the argument does not already have it (constants, nil,
+			// conversions to an interface): type names may be shadowed at the call site
+			if tv, ok := info.Types[call.Args[pi]]; ok && tv.Value == nil && !tv.IsNil() && tv.Type != nil && types.Identical(tv.Type, pt) {
+				fmt.Fprintf(&pre, "%sa%d := %s; ", pfx, pi, text(call.Args[pi]))
+			} else {
+				fmt.Fprintf(&pre, "var %sa%d %s = %s; ", pfx, pi, typeStr(pt), text(call.Args[pi]))
+			}
 			if nm != nil && nm.Name != "_" {
-				fmt.Fprintf(&bind, "var %s %s = %sa%d; _ = %s; ", nm.Name, ts, pfx, pi, nm.Name)
+				fmt.Fprintf(&bind, "%s := %sa%d; _ = %s; ", nm.Name, pfx, pi, nm.Name)
 			} else {
 				fmt.Fprintf(&pre, "_ = %sa%d; ", pfx, pi)
 			}
@@ -1022,7 +1041,12 @@ func (st *state) plan(pk *packages.Package, x *fresh, id *ast.Ident, src func(*t
 	// results
 	var rtemps []string
 	resObj := map[types.Object]string{}
-	for i := 0; i < nres; i++ {
+	for i := 0; i < nres && asLiteral; i++ {
+		if nm := sig.Results().At(i).Name(); nm != "" && nm != "_" {
+			return nil, nil, fmt.Errorf("helper with named results started with go / defer at %s", where)
+		}
+	}
+	for i := 0; i < nres && !asLiteral; i++ {
 		rv := sig.Results().At(i)
 		t := fmt.Sprintf("%sr%d", pfx, i)
 		rtemps = append(rtemps, t)
@@ -1057,14 +1081,43 @@ func (st *state) plan(pk *packages.Package, x *fresh, id *ast.Ident, src func(*t
 					return false
 				}
 			case *ast.LabeledStmt:
+				if asLiteral {
+					return true // a function literal has its own label scope
+				}
 				// labels of the body are renamed per copy (two copies may land in one function)
 				bes = append(bes, edit{htf.Offset(e.Label.Pos()), htf.Offset(e.Label.End()), e.Label.Name + "_" + label})
 			case *ast.BranchStmt:
-				if e.Label != nil {
+				if e.Label != nil && !asLiteral {
 					bes = append(bes, edit{htf.Offset(e.Label.Pos()), htf.Offset(e.Label.End()), e.Label.Name + "_" + label})
 				}
 			case *ast.ReturnStmt:
 				if inLit {
+					return true
+				}
+				if asLiteral {
+					// results of a go / defer call are discarded: evaluate them, then return
+					if len(e.Results) == 1 && nres > 1 {
+						ro := htf.Offset(e.Pos())
+						blanks := strings.TrimSuffix(strings.Repeat("_, ", nres), ", ")
+						bes = append(bes, edit{ro, ro + len("return"), "{ " + blanks + " ="})
+						eo := htf.Offset(e.End())
+						bes = append(bes, edit{eo, eo, "; return }"})
+					} else if len(e.Results) > 0 {
+						prev := e.Pos()
+						for i, r := range e.Results {
+							sep := "; _ = "
+							if i == 0 {
+								sep = "{ _ = "
+							}
+							bes = append(bes, edit{htf.Offset(prev), htf.Offset(r.Pos()), sep})
+							if tv, ok := info.Types[r]; ok && tv.IsNil() {
+								bes = append(bes, edit{htf.Offset(r.Pos()), htf.Offset(r.End()), "0"})
+							}
+							prev = r.End()
+						}
+						eo := htf.Offset(e.End())
+						bes = append(bes, edit{eo, eo, "; return }"})
+					}
 					return true
 				}
 				usedLabel = true
@@ -1129,6 +1182,21 @@ func (st *state) plan(pk *packages.Package, x *fresh, id *ast.Ident, src func(*t
 	}
 	var out strings.Builder
 	out.WriteString(pre.String())
+	if asLiteral {
+		eds := map[string][]edit{}
+		so := ctf.Offset(stmt.Pos())
+		eds[cname] = append(eds[cname], edit{so, so, out.String() + lineDirective(fset, stmt.Pos(), nil, 0)})
+		co, ce := ctf.Offset(call.Pos()), ctf.Offset(call.End())
+		eds[cname] = append(eds[cname], edit{co, ce, "func() { " + bind.String() + oneLine(body) + " }()" + lineDirective(fset, call.End(), nil, 0)})
+		if err := addImports(eds, cname, file, ctf, fset, needImport); err != nil {
+			return nil, nil, err
+		}
+		callerName := "?"
+		if outer != nil {
+			callerName = declKey(relPkg(pk.PkgPath), outer)
+		}
+		return &plan{eds: eds, desc: fmt.Sprintf("%s -> %s as a function literal (%s:%d)", x.key, callerName, relFile(st.dir, where.Filename), where.Line)}, stmt, nil
+	}
 	if usedLabel {
 		fmt.Fprintf(&out, "%s: switch { default: %s%s }; ", label, bind.String(), oneLine(body))
 	} else {
@@ -1143,25 +1211,8 @@ func (st *state) plan(pk *packages.Package, x *fresh, id *ast.Ident, src func(*t
 		repl = ""
 	}
 	eds[cname] = append(eds[cname], edit{co, ce, repl + lineDirective(fset, call.End(), nil, 0)})
-	// imports the caller's file lacks
-	if len(needImport) > 0 {
-		var paths []string
-		for p := range needImport {
-			paths = append(paths, p)
-		}
-		sort.Strings(paths)
-		var at token.Pos = file.Name.End()
-		for _, d := range file.Decls {
-			if gd, ok := d.(*ast.GenDecl); ok && gd.Tok == token.IMPORT {
-				at = gd.End()
-			}
-		}
-		var ib strings.Builder
-		for _, p := range paths {
-			fmt.Fprintf(&ib, ";import %s %q", needImport[p], p)
-		}
-		ao := ctf.Offset(at)
-		eds[cname] = append(eds[cname], edit{ao, ao, ib.String() + lineDirective(fset, at, nil, 0)})
+	if err := addImports(eds, cname, file, ctf, fset, needImport); err != nil {
+		return nil, nil, err
 	}
 	callerName := "?"
 	if outer != nil {
@@ -1169,6 +1220,31 @@ func (st *state) plan(pk *packages.Package, x *fresh, id *ast.Ident, src func(*t
 	}
 	desc := fmt.Sprintf("%s -> %s (%s:%d)", x.key, callerName, relFile(st.dir, where.Filename), where.Line)
 	return &plan{eds: eds, desc: desc}, stmt, nil
+}
+
+// addImports adds the imports the caller's file lacks (on the line of its last import declaration).
+func addImports(eds map[string][]edit, cname string, file *ast.File, ctf *token.File, fset *token.FileSet, needImport map[string]string) error {
+	if len(needImport) == 0 {
+		return nil
+	}
+	var paths []string
+	for p := range needImport {
+		paths = append(paths, p)
+	}
+	sort.Strings(paths)
+	var at token.Pos = file.Name.End()
+	for _, d := range file.Decls {
+		if gd, ok := d.(*ast.GenDecl); ok && gd.Tok == token.IMPORT {
+			at = gd.End()
+		}
+	}
+	var ib strings.Builder
+	for _, p := range paths {
+		fmt.Fprintf(&ib, ";import %s %q", needImport[p], p)
+	}
+	ao := ctf.Offset(at)
+	eds[cname] = append(eds[cname], edit{ao, ao, ib.String() + lineDirective(fset, at, nil, 0)})
+	return nil
 }
 
 func relFile(dir, f string) string {
